@@ -1,5 +1,7 @@
 V = "configs/validate.py"
 T1 = "clematis/engine/stages/t1.py"
+OC = "clematis/engine/orchestrator/core.py"
+T1C = "clematis/engine/stages/t1.py"
 CASES = [
     ("ensure-dict-returns-input", "mutant", V, "    if isinstance(x, dict):\n        return dict(x)\n", "    if isinstance(x, dict):\n        return x\n", "C14.PURE"),
     ("ensure-subdict-aliases", "mutant", V, "    v = _ensure_dict(cfg.get(key))\n    if key not in cfg:\n        cfg[key] = v\n    return v\n", "    v = cfg.get(key)\n    if not isinstance(v, dict):\n        v = {}\n        cfg[key] = v\n    return v\n", "C14.PURE"),
@@ -20,7 +22,10 @@ CASES = [
     ("exact-recent-days-uncoerced", "mutant", V, "        t2[\"exact_recent_days\"] = _coerce_int(t2.get(\"exact_recent_days\"), 30)\n        if t2[\"exact_recent_days\"] < 0:\n            _err(errors, \"t2.exact_recent_days\", \"must be >= 0\")\n", "        pass\n", "C14.CONTRACT"),
     ("tiers-unchecked", "mutant", V, "        if not isinstance(tiers_in, (list, tuple)) or not all(isinstance(tn, str) for tn in tiers_in):\n            _err(errors, \"t2.tiers\", \"must be a list of tier names\")\n        else:\n            t2[\"tiers\"] = list(tiers_in)\n", "        pass\n", "C14.CONTRACT"),
     ("engine-hard-subscript", "mutant", T1, "    decay_cfg = cfg_t1.get(\"decay\", {}) or {}\n", "    decay_cfg = cfg_t1[\"decay\"]\n", "C14.CONTRACT"),
+    ("orchestrator-prefers-raw-ttl-alias", "mutant", OC, "            ttl_conf = cache_cfg.get(\"ttl_sec\", cache_cfg.get(\"ttl_s\", 600))\n", "            ttl_conf = cache_cfg.get(\"ttl_s\", cache_cfg.get(\"ttl_sec\", 600))\n", "C14.CONTRACT"),
+    ("t1-cache-prefers-raw-ttl-sec", "mutant", T1C, "    ttl_s = int(c.get(\"ttl_s\", 300))\n", "    ttl_s = int(c.get(\"ttl_sec\", c.get(\"ttl_s\", 300)))\n", "C14.CONTRACT"),
     # twins
+    ("orchestrator-reads-normalised-ttl-only", "twin", OC, "            ttl_conf = cache_cfg.get(\"ttl_sec\", cache_cfg.get(\"ttl_s\", 600))\n", "            ttl_conf = cache_cfg.get(\"ttl_sec\", 600)\n", None),
     ("coerce-float-isnan", "twin", V, "    return x if x == x else float(default)\n", "    import math\n    return float(default) if math.isnan(x) else x\n", None),
     ("ensure-dict-copy-via-ctor", "twin", V, "    if isinstance(x, dict):\n        return dict(x)\n", "    if isinstance(x, dict):\n        return {**x} if False else dict(x)\n", None),
     ("range-check-closed-form", "twin", V, "        if t2[\"exact_recent_days\"] < 0:\n", "        if not (t2[\"exact_recent_days\"] >= 0):\n", None),
